@@ -419,6 +419,7 @@ def write_replay(prop, legname, failure, seed, tier):
         body["recipe"] = failure["recipe"]
     if failure.get("interpreter") or sys.flags.optimize:
         body["interpreter"] = "-O"
+        body["hashseed"] = failure.get("hashseed") or os.environ.get("PYTHONHASHSEED", "0")
     sha = hashlib.sha1(json.dumps([prop, legname, failure["case"]], sort_keys=True, default=repr).encode()).hexdigest()[:12]
     path = os.path.join(rdir, "%s-%s.json" % (prop, sha))
     with open(path, "w") as f:
@@ -513,7 +514,8 @@ def _opt_child_start(mod, tier, seed, only_legs):
     if not names:
         return None
     d = tempfile.mkdtemp(prefix="pmsopt-", dir="/var/tmp")
-    env = dict(os.environ, PYTHONOPTIMIZE="1", PYTHONHASHSEED="0", VERIF_OPT_CHILD="1", VERIF_EVIDENCE_DIR=d, VERIF_SEED=str(seed),
+    # the child also runs under another (fixed, seed-derived) string-hash seed: set/dict iteration order over strings differs from the parent's
+    env = dict(os.environ, PYTHONOPTIMIZE="1", PYTHONHASHSEED=str(1 + (seed * 7919 + 12345) % 4000000000), VERIF_OPT_CHILD="1", VERIF_EVIDENCE_DIR=d, VERIF_SEED=str(seed),
                VERIF_NPROC=str(max(2, NPROC // 4)))
     proc = subprocess.Popen([os.path.join(VERIF, "check"), mod.PROPERTY, "--tier", tier, "--legs", ",".join(names)],
                             env=env, stdout=subprocess.PIPE, stderr=subprocess.PIPE, text=True)
@@ -532,7 +534,8 @@ def _opt_child_finish(child, failures):
             path = [ln.split("replay=", 1)[1].strip() for ln in out.splitlines() if ln.startswith("VIOLATION ")][0]
             with open(path) as f:
                 body = json.load(f)
-            fl = {"case": body["case"], "problem": "[in an interpreter started with python -O] " + body["problem"], "interpreter": "-O"}
+            fl = {"case": body["case"], "problem": "[in an interpreter started with python -O] " + body["problem"], "interpreter": "-O",
+                  "hashseed": body.get("hashseed")}
             if body.get("recipe"):
                 fl["recipe"] = body["recipe"]
             failures.append((body["leg"], fl))
@@ -672,7 +675,7 @@ def run_replay(modname, path):
         import subprocess
         # found under python -O: replay it there
         r = subprocess.run([os.path.join(VERIF, "check"), mod.PROPERTY, "--replay", os.path.abspath(path)],
-                           env=dict(os.environ, PYTHONOPTIMIZE="1", PYTHONHASHSEED="0"))
+                           env=dict(os.environ, PYTHONOPTIMIZE="1", PYTHONHASHSEED=str(body.get("hashseed") or "0"), VERIF_OPT_CHILD="1"))
         return r.returncode
     leg = [l for l in mod.LEGS if l.name == body["leg"]][0]
     problem = None
